@@ -1,6 +1,8 @@
 /-
   C05 — source tie.  `TaurexModel/Gen/SrcC05.lean` is regenerated on every run by the list dialect of the source
-  translator (`harness/translate_list.py`) from the source text of taurex/util/util.py and taurex/binning/fluxbinner.py.
+  translator (`harness/translate_list.py`) from the source text of taurex/util/util.py and taurex/binning/fluxbinner.py
+  (`FluxBinner.bindown` once per calling pattern: `grid_width` absent / an array / one number, `error` absent / an array;
+  `util.bindown` for 1-D data and — one row, the leading axis lifted — for 2-D data).
   The theorems below state, for EVERY carrier (no algebra is used), that each regenerated definition computes the
   hand-written model function of `TaurexModel/Binning.lean` that the C05 theorems are about and that `driver_c05`
   executes.  numpy's primitives are the definitions of `TaurexModel/Gen/Prelude.lean` (`Np.*`); the helper lemmas are in
@@ -195,6 +197,133 @@ theorem src_wnwidth_to_wlwidth (g w : List α) (h : g.length = w.length) :
     cases w with
     | nil => simp
     | cons b s => simp only [List.map_cons, List.zipWith_cons_cons, ih s]; rfl
+
+/-! ### `FluxBinner.bindown` with one width for all native bins -/
+
+/-- every native bin gets the width `w` -/
+def setWidth (w : α) (r : Row α) : Row α := { r with w := w }
+
+/-- **`FluxBinner.bindown(wngrid, spectrum, grid_width=<one number>)`**: `hasattr(grid_width, '__len__')` is False, the width
+    is not permuted and broadcasts in `old_spect_wn ± old_spect_width/2` — `fluxBindown true` on the rows with every
+    width set to that number -/
+theorem src_bindown_scalar (rows : List (Row α)) (w : α) (targets : List (TBin α)) :
+    (SrcC05.fluxbinner_bindown_s (rows.map Row.c) (rows.map Row.s) w
+        (targets.map TBin.c) (targets.map TBin.w)).2.1 = fluxBindown true Row.s (rows.map (setWidth w)) targets := by
+  have hc : rows.map Row.c = (rows.map (setWidth w)).map Row.c := by rw [List.map_map]; rfl
+  have hs : rows.map Row.s = (rows.map (setWidth w)).map Row.s := by rw [List.map_map]; rfl
+  rw [hc, hs]
+  have hw : ∀ r ∈ sortBy Row.c (rows.map (setWidth w)), r.w = w := by
+    intro r hr
+    obtain ⟨r0, _, rfl⟩ := List.mem_map.1 ((Np.mem_sortBy Row.c r _).1 hr)
+    rfl
+  simp only [SrcC05.fluxbinner_bindown_s, Np.take_argsort, fluxBindown, nativeBins, if_true]
+  generalize sortBy Row.c (rows.map (setWidth w)) = R at hw ⊢
+  have hlo : List.map (fun x => x - w / 2) (R.map Row.c) = R.map (fun x : Row α => x.c - x.w / 2) := by
+    rw [List.map_map]
+    exact List.map_congr_left (fun r hr => by simp only [Function.comp, hw r hr])
+  have hhi : List.map (fun x => x + w / 2) (R.map Row.c) = R.map (fun x : Row α => x.c + x.w / 2) := by
+    rw [List.map_map]
+    exact List.map_congr_left (fun r hr => by simp only [Function.comp, hw r hr])
+  rw [hlo, hhi]
+  bindown_loop α, R, (fun st : Nat × Nat × List α => st.2.2), (fun a b => fluxBinVal Row.s R a b)
+
+/-- … with `error=<array>`: the binned spectrum -/
+theorem src_bindown_scalar_err_spectrum (rows : List (Row α)) (w : α) (targets : List (TBin α)) :
+    (SrcC05.fluxbinner_bindown_se (rows.map Row.c) (rows.map Row.s) w (rows.map Row.e)
+        (targets.map TBin.c) (targets.map TBin.w)).2.1 = fluxBindown true Row.s (rows.map (setWidth w)) targets := by
+  have hc : rows.map Row.c = (rows.map (setWidth w)).map Row.c := by rw [List.map_map]; rfl
+  have hs : rows.map Row.s = (rows.map (setWidth w)).map Row.s := by rw [List.map_map]; rfl
+  have he : rows.map Row.e = (rows.map (setWidth w)).map Row.e := by rw [List.map_map]; rfl
+  rw [hc, hs, he]
+  have hw : ∀ r ∈ sortBy Row.c (rows.map (setWidth w)), r.w = w := by
+    intro r hr
+    obtain ⟨r0, _, rfl⟩ := List.mem_map.1 ((Np.mem_sortBy Row.c r _).1 hr)
+    rfl
+  simp only [SrcC05.fluxbinner_bindown_se, Np.take_argsort, fluxBindown, nativeBins, if_true]
+  generalize sortBy Row.c (rows.map (setWidth w)) = R at hw ⊢
+  have hlo : List.map (fun x => x - w / 2) (R.map Row.c) = R.map (fun x : Row α => x.c - x.w / 2) := by
+    rw [List.map_map]
+    exact List.map_congr_left (fun r hr => by simp only [Function.comp, hw r hr])
+  have hhi : List.map (fun x => x + w / 2) (R.map Row.c) = R.map (fun x : Row α => x.c + x.w / 2) := by
+    rw [List.map_map]
+    exact List.map_congr_left (fun r hr => by simp only [Function.comp, hw r hr])
+  rw [hlo, hhi]
+  bindown_loop α, R, (fun st : Nat × Nat × List α × List α => st.2.2.1), (fun a b => fluxBinVal Row.s R a b)
+
+/-- … and the binned error, `fluxBindownErr true` on the same rows -/
+theorem src_bindown_scalar_err (rows : List (Row α)) (w : α) (targets : List (TBin α)) :
+    (SrcC05.fluxbinner_bindown_se (rows.map Row.c) (rows.map Row.s) w (rows.map Row.e)
+        (targets.map TBin.c) (targets.map TBin.w)).2.2.1 = fluxBindownErr true Row.e (rows.map (setWidth w)) targets := by
+  have hc : rows.map Row.c = (rows.map (setWidth w)).map Row.c := by rw [List.map_map]; rfl
+  have hs : rows.map Row.s = (rows.map (setWidth w)).map Row.s := by rw [List.map_map]; rfl
+  have he : rows.map Row.e = (rows.map (setWidth w)).map Row.e := by rw [List.map_map]; rfl
+  rw [hc, hs, he]
+  have hw : ∀ r ∈ sortBy Row.c (rows.map (setWidth w)), r.w = w := by
+    intro r hr
+    obtain ⟨r0, _, rfl⟩ := List.mem_map.1 ((Np.mem_sortBy Row.c r _).1 hr)
+    rfl
+  simp only [SrcC05.fluxbinner_bindown_se, Np.take_argsort, fluxBindownErr, nativeBins, if_true]
+  generalize sortBy Row.c (rows.map (setWidth w)) = R at hw ⊢
+  have hlo : List.map (fun x => x - w / 2) (R.map Row.c) = R.map (fun x : Row α => x.c - x.w / 2) := by
+    rw [List.map_map]
+    exact List.map_congr_left (fun r hr => by simp only [Function.comp, hw r hr])
+  have hhi : List.map (fun x => x + w / 2) (R.map Row.c) = R.map (fun x : Row α => x.c + x.w / 2) := by
+    rw [List.map_map]
+    exact List.map_congr_left (fun r hr => by simp only [Function.comp, hw r hr])
+  rw [hlo, hhi]
+  bindown_loop α, R, (fun st : Nat × Nat × List α × List α => st.2.2.2), (fun a b => fluxBinErr Row.e R a b)
+
+/-! ### `util.bindown` on N-D data: the `np.digitize` path -/
+
+/-- `np.digitize(x, bins, right)` for increasing `bins`: numpy evaluates it as `np.searchsorted(bins, x, side='left')`
+    (`right=True`: the index `i` with `bins[i-1] < x <= bins[i]`) resp. `side='right'` — the number of edges below (not
+    above) each point -/
+def npDigitize (x edges : List α) (right : Bool) : List Nat :=
+  x.map (fun v => if right then Np.searchsortedLeft edges v else Np.searchsortedRight edges v)
+
+theorem compress_map_map {β γ : Type} (f : β → γ) (p : β → Bool) (l : List β) :
+    Np.compress (l.map f) (l.map p) = (l.filter p).map f := by
+  induction l with
+  | nil => rfl
+  | cons x t ih =>
+    simp only [Np.compress, List.map_cons, List.zip_cons_cons, List.filterMap_cons, List.filter_cons] at ih ⊢
+    cases hp : p x <;> simp [hp, ih]
+
+theorem length_histEdges (nb : List α) (hne : nb ≠ []) : (histEdges nb).length = nb.length + 1 := by
+  have hn : 1 ≤ nb.length := List.length_pos_iff.2 hne
+  simp only [histEdges, List.length_cons, List.length_append, length_midPts, List.length_cons, List.length_nil]
+  omega
+
+/-- **`util.bindown(original_bin, original_data, new_bin)` on 2-D data** (the `np.digitize` path; one row of the data, the
+    leading axis lifted), in the form the code computes it: for every bin index `i = 1 … len(new_bin)` the mean
+    (`Binning.meanOf`: sum / count) of the native points whose `np.digitize` index is `i`.  `np.digitize(…, right=True)` is an
+    external, instantiated with numpy's evaluation for increasing edges (`npDigitize`: the number of edges below the
+    point) — the ASSUMPTION the harness validates.  `Props/C05SrcProps.lean` turns this into the model's `histMeanN` (for
+    increasing edges, over ℝ: `srcHistN_eq`).  Guard: `new_bin` not empty. -/
+theorem src_util_bindown_nd (rows : List (Row α)) (nb : List α) (hne : nb ≠ []) :
+    SrcC05.util_bindown_nd (rows.map Row.c) (rows.map Row.s) nb npDigitize
+      = (List.range' 1 nb.length).map (fun i => meanOf Row.s (rows.filter (fun r =>
+          decide ((histEdges nb).countP (fun e => decide (e < r.c)) = i)))) := by
+  have hn : 1 ≤ nb.length := List.length_pos_iff.2 hne
+  simp only [SrcC05.util_bindown_nd, List.length_set, List.length_replicate, Nat.add_sub_cancel, midPts_eq]
+  have hget0 : ∀ (l : List α) (x : α), 0 < l.length → (l.set 0 x).getD 0 0 = x := by
+    intro l x h; cases l with
+    | nil => simp at h
+    | cons y t => rfl
+  have hgetn : ∀ (l : List α) (x : α), nb.length < l.length → (l.set nb.length x).getD nb.length 0 = x := by
+    intro l x h
+    simp [List.getD, h]
+  rw [hget0 _ _ (by simp), hgetn _ _ (by simp)]
+  rw [edges_assembled nb.length hn _ _ _ _ _ _ (length_midPts nb)]
+  have hE : (nb.getD 0 0 - (nb.getD 1 0 - nb.getD 0 0) / 2) ::
+      (midPts nb ++ [nb.getD (nb.length - 1) 0 + (nb.getD (nb.length - 1) 0 - nb.getD (nb.length - 2) 0) / 2])
+      = histEdges nb := rfl
+  rw [hE, length_histEdges nb hne, Nat.add_sub_cancel]
+  apply List.map_congr_left
+  intro i _
+  simp only [npDigitize, if_true, List.map_map, Np.searchsortedLeft]
+  rw [compress_map_map Row.s _ rows]
+  simp only [Np.mean, meanOf, Np.sum, sumL, List.map_map, Function.comp_def]
 
 end
 end Taurex.C05Src
